@@ -84,6 +84,11 @@ let uouts_of_tok (s : string) : upd_outcome list = List.map uout_of_string (spli
 let first_uout (s : string) : upd_outcome = match split_list s ',' with x :: _ -> uout_of_string x | [] -> UFail
 
 let svc_of_tok (s : string) : cidr option = if s = "-" then None else Some (cidr_of_canon s)
+(* the --cluster-cidr flags: <cidr>=<mask size>,... *)
+let dp_of_tok (s : string) =
+  List.map (fun x -> match String.index_opt x '=' with
+      | Some i -> (cidr_of_canon (String.sub x 0 i), z_of_int (int_of_string (String.sub x (i + 1) (String.length x - i - 1))))
+      | None -> failwith "bad dp token") (split_list s ',')
 
 let ccobj_of_fields (f : string array) : ccobj =
   (* cc+ name v4 v6 hb sel fins gen rest *)
@@ -113,7 +118,8 @@ let op_of_line (f : string list) : op option =
   | ["runc"; w; out] -> Some (RunCC (n_of_int (int_of_string w), first_uout out))
   | ["pn"; outs] -> Some (ProcNode (pouts_of_tok outs))
   | ["pc"; out] -> Some (ProcCC (first_uout out))
-  | ["construct"; s1; s2; outs] -> Some (Construct (svc_of_tok s1, svc_of_tok s2, uouts_of_tok outs))
+  | ["construct"; s1; s2; outs] -> Some (Construct (svc_of_tok s1, svc_of_tok s2, uouts_of_tok outs, []))
+  | ["construct"; s1; s2; outs; dp] -> Some (Construct (svc_of_tok s1, svc_of_tok s2, uouts_of_tok outs, dp_of_tok dp))
   | _ -> None
 
 (* ---- printing ---- *)
@@ -135,7 +141,11 @@ let effect_tok (e : effect) : string =
   | FxUpdateCC (o, out) ->
     Printf.sprintf "updcc %s fins=%s rest=%s %s" (string_of_str o.o_name) (fins_tok o.o_fins) (dec_of_n o.o_rest)
       (match out with UOk -> "ok" | UFail -> "fail" | UAppliedErr -> "aerr")
-  | FxCreateCC (o, _) -> Printf.sprintf "createcc %s fins=%s" (string_of_str o.o_name) (fins_tok o.o_fins)
+  | FxCreateCC (o, out) ->
+    let ftok = function FOk c -> canon_cidr c | FEmpty -> "-" | FBad -> "bad" in
+    Printf.sprintf "createcc %s fins=%s v4=%s v6=%s hb=%s sel=%s %s" (string_of_str o.o_name) (fins_tok o.o_fins)
+      (ftok o.o_v4) (ftok o.o_v6) (string_of_int (int_of_z o.o_hb)) (if o.o_selkey = Some default_key then "-" else "set")
+      (match out with UOk -> "ok" | UFail -> "fail" | UAppliedErr -> "aerr")
 
 let pool_tok (p : pool option) : string =
   match p with
